@@ -521,10 +521,12 @@ impl PtraceDumper {
         // See http://www.trilithium.com/johan/2005/08/linux-gate/ for more
         // information.
         let maps_path = format!("/proc/{}/maps", self.pid);
-        let maps_file =
-            std::fs::File::open(&maps_path).map_err(|e| InitError::IOError(maps_path, e))?;
+        // Mapped file names are arbitrary bytes: don't let a name that isn't UTF-8 make the
+        // whole map unreadable.
+        let maps_bytes = std::fs::read(&maps_path).map_err(|e| InitError::IOError(maps_path, e))?;
+        let maps_text = String::from_utf8_lossy(&maps_bytes);
 
-        let maps = procfs_core::process::MemoryMaps::from_read(maps_file)
+        let maps = procfs_core::process::MemoryMaps::from_read(maps_text.as_bytes())
             .map_err(InitError::ReadProcessMapFileFailed)?;
 
         self.mappings = MappingInfo::aggregate(maps, self.auxv.get_linux_gate_address())
